@@ -172,7 +172,7 @@ def call_app(app, environ, consume='drain', abort_after=0, validate=True):
     target = validator(app) if validate else app
     it = None
     with warnings.catch_warnings():
-        warnings.simplefilter('ignore')
+        # (the process-wide filter -- 'ignore' from the launcher, or what a plan escalated on purpose -- stays in force)
         try:
             it = target(environ, start_response)
         except AssertionError as e:
